@@ -24,7 +24,7 @@ func (Engine) DistinctRule() string {
 		"distinct = distinct (configuration, method, path, header kinds, file-system call/fault sequence, outcome class); non-trivial = the request reached the file system (at least one FS call, or a write by Static) or a fault/mutation fired"
 }
 
-var prefixes = []string{"", "public", "/public", "public/", "/public/", "/pre/fix", "/v1.0", "a+b/"}
+var prefixes = []string{"", "public", "/public", "public/", "/public/", "/pre/fix", "/v1.0", "a+b/", "/50%off", "a%20b"}
 var indexes = []string{"", "home.htm", "index.html", "missing.html", "/home.htm"}
 
 // Paths relative to the prefix.
@@ -38,7 +38,7 @@ var relPaths = []string{
 }
 
 // Paths that only look like the prefix "/public".
-var lookAlikes = []string{"/publicpublic/a.txt", "/public/public", "/public%2Fa.txt", "/publ%69c/a.txt", "/public%2f..%2fsecret.txt", "/pre%2Ffix/a.txt", "/x/../public/a.txt", "//public/a.txt", "/./public/a.txt", "/x/../public/sub", "/x/../public/sub/", "/public/../public/a.txt", "/x/../pre/fix/a.txt", "/pre//fix/a.txt", "/publicity/page.html", "/public.env", "/publicapp.js", "/publi", "/publica.txt", "/Public/a.txt", "/public../outside/secret.txt", "/publicindex.html", "/other/a.txt", "/a.txt", "/pre/fixa.txt", "/pre/a.txt", "/pre", "/v1x0/a.txt", "/v100/sub/", "/v1/0/a.txt", "/v1.0x/a.txt", "/aab/a.txt", "/ab/a.txt", "/a+bb/a.txt"}
+var lookAlikes = []string{"/publicpublic/a.txt", "/public/public", "/public%2Fa.txt", "/publ%69c/a.txt", "/public%2f..%2fsecret.txt", "/pre%2Ffix/a.txt", "/x/../public/a.txt", "//public/a.txt", "/./public/a.txt", "/x/../public/sub", "/x/../public/sub/", "/public/../public/a.txt", "/x/../pre/fix/a.txt", "/pre//fix/a.txt", "/publicity/page.html", "/public.env", "/publicapp.js", "/publi", "/publica.txt", "/Public/a.txt", "/public../outside/secret.txt", "/publicindex.html", "/other/a.txt", "/a.txt", "/pre/fixa.txt", "/pre/a.txt", "/pre", "/v1x0/a.txt", "/v100/sub/", "/v1/0/a.txt", "/v1.0x/a.txt", "/aab/a.txt", "/ab/a.txt", "/a+bb/a.txt", "/a b/a.txt", "/a b/sub/", "/50/a.txt", "/50%25off/a.txt"}
 
 var methods = []string{"GET", "HEAD", "POST", "PUT", "DELETE", "get", "OPTIONS"}
 
@@ -90,12 +90,16 @@ func (Engine) Run(t *tape.Tape, o eng.Opts) *eng.Result {
 	cfg := sched.Config{Sched: t.Stream("sched"), Time: t.Stream("time"), MaxSteps: world.StepCap(12000), KeepLog: o.Trace}
 	world.PickPolicy(sw, &cfg)
 
-	spec := &world.StaticSpec{Prefix: prefixes[gen.Weighted(6, 4, 6, 2, 2, 2, 1, 1)], Index: indexes[gen.Weighted(4, 2, 1, 1, 1)], ETag: gen.Intn(2) == 1,
-		Expires: gen.Intn(3) == 1, CacheControl: gen.Intn(3) == 1, Logging: gen.Intn(4) == 1, UseDirectory: backing == 2, DefaultDir: backing == 3}
+	spec := &world.StaticSpec{Prefix: prefixes[gen.Weighted(12, 8, 12, 4, 4, 4, 2, 2, 1, 1)], Index: indexes[gen.Weighted(4, 2, 1, 1, 1)], ETag: gen.Intn(2) == 1,
+		Expires: gen.Intn(3) == 1, CacheControl: gen.Intn(3) == 1, Logging: gen.Intn(4) == 1, UseDirectory: backing == 2, DefaultDir: backing == 3, AlsoDirectory: backing < 2 && gen.Intn(3) == 1}
 	setup := &world.Setup{Env: 1, Static: spec}
 	setup.Mw = []world.HSpec{{Kind: world.HkToken}}
 	if gen.Intn(4) == 1 {
 		setup.Mw = append(setup.Mw, world.HSpec{Kind: world.HkLogger})
+	}
+	upstream := gen.Intn(3) == 1 // an earlier middleware has pre-set response headers: a silent Static leaves them alone
+	if upstream {
+		setup.Mw = append(setup.Mw, world.HSpec{Kind: world.HkUpstreamHeaders})
 	}
 	setup.Mw = append(setup.Mw, world.HSpec{Kind: world.HkStatic}, world.HSpec{Kind: world.HkSim, Shape: world.ShCtx})
 	setup.Batches = []int{len(setup.Mw)}
@@ -360,7 +364,11 @@ func (Engine) Run(t *tape.Tape, o eng.Opts) *eng.Result {
 			viol("wrote-and-chain-continued", "Static wrote a response and the next handler ran as well\n  "+desc)
 		}
 		// Silent means silent: no response headers left behind for the rest of the chain.
-		if !wrote && nextAt >= 0 && headersAtNext != "" && headersAtNext != "X-Echo-Req" {
+		if upstream {
+			if !wrote && nextAt >= 0 && headersAtNext != "Content-Type,X-Echo-Req,X-Upstream" && headersAtNext != "Content-Type,X-Upstream" {
+				viol("silent-but-headers", "Static stayed silent but changed the response headers an earlier handler had set (Content-Type, X-Upstream): the next handler finds "+quote(headersAtNext)+"\n  "+desc)
+			}
+		} else if !wrote && nextAt >= 0 && headersAtNext != "" && headersAtNext != "X-Echo-Req" {
 			viol("silent-but-headers", "Static stayed silent but left response headers behind: "+headersAtNext+"\n  "+desc)
 		}
 		if nextAt >= 0 {
